@@ -86,12 +86,12 @@ def all_shapes():
 
 
 def quick_shapes(seed):
-    core = [("A", "none"), ("AB", "B"), ("all", "A"), ("D", "none"), ("all", "D")]
+    core = [("A", "none"), ("AB", "B"), ("all", "A"), ("D", "none"), ("all", "D"), ("none", "none")]
     rest = [x for x in grid() if x not in core]
     rnd = random.Random(seed)
     rnd.shuffle(rest)
     w, b = rnd.choice(DISABLED[:3])
-    return [Shape(w, b) for w, b in core + rest[:2]] + [Shape(w, b, disabled=True)]
+    return [Shape(w, b) for w, b in core + rest[:1]] + [Shape(w, b, disabled=True)]
 
 
 # ------------------------------------------------------------------------------------------------ request plumbing
@@ -526,9 +526,10 @@ class Shard:
             body = {"username": u["name"], "nickname": u["name"], "password": PW, "roles": ROLES[u["role"]]}
             p = u["shape"].param()
             u["via_update"] = False
-            if p is not None and n % 3 == 1:
+            if p is not None and (n % 3 == 1 or (u["shape"].wl == "none" and u["role"] == "dev")):
                 # every third user reaches its privilege through an admin UPDATE of a wider one (whitelist of every seeded
-                # namespace): the restriction must be what the last acknowledged update says, not what the user had before
+                # namespace): the restriction must be what the last acknowledged update says, not what the user had before.
+                # users with an EMPTY whitelist always come this way once: emptying a list is an update like any other
                 wide = {"whitelistIsAll": False, "whitelist": sorted(set(NSID.values()) | set(TWIN.values())), "blacklistIsAll": False, "blacklist": []}
                 body["namespacePrivilegeParam"] = wide
                 self.adm("POST", V2 + "/user/add", j=body)
@@ -546,7 +547,8 @@ class Shard:
                 raise common.Inconclusive("user %s was not created" % u["name"])
             want = u["shape"].param() or {"whitelistIsAll": True, "whitelist": [], "blacklistIsAll": False, "blacklist": []}
             got = s.get("namespacePrivilege") or {}
-            ok = got.get("enabled") is True and got.get("whitelistIsAll") == want["whitelistIsAll"] and got.get("blacklistIsAll") == want["blacklistIsAll"] \
+            # a flag the server leaves out of its answer counts as false (the judged behaviour is the sweep's, not this echo)
+            ok = got.get("enabled") is True and bool(got.get("whitelistIsAll")) == want["whitelistIsAll"] and bool(got.get("blacklistIsAll")) == want["blacklistIsAll"] \
                 and sorted(got.get("whitelist") or []) == sorted(want["whitelist"]) and sorted(got.get("blacklist") or []) == sorted(want["blacklist"]) \
                 and s.get("roles") == [ROLES[u["role"]]]
             if not ok and u.get("via_update"):
@@ -634,6 +636,7 @@ class Shard:
                                            "diff": diff_text(self.base[fam][ch[0]], cur[ch[0]])})
                         self.repair(fam, ch, cur)
             self.t_sweep = time.time() - t0
+            self.resweep_after_restart()
         except common.Inconclusive as e:
             self.error = "shard %d: %s" % (self.idx, e)
         except Exception as e:  # harness failure -> inconclusive, never a violation
@@ -642,6 +645,37 @@ class Shard:
         finally:
             if self.node:
                 self.node.kill()
+
+    def resweep_after_restart(self):
+        """the privilege group a session carries is stored with the session (raft cache entry): after a restart the SAME token
+        is served from what was written to disk, so the read endpoints are swept again with the tokens issued before"""
+        if self.only:
+            return
+        self.node.kill()
+        self.node.start(timeout=60)
+        self.admin, r = self.node.console_login("admin", "admin", wait=20)
+        if not self.admin:
+            raise common.Inconclusive("admin login after restart failed: %s" % r.body[:200])
+        deadline = time.time() + 30
+        while True:       # start-up replay done = the seeded data reads back as before
+            cur = {fam: self.fp_family(fam) for fam in ("config", "ns")}
+            if all(cur[f] == self.base[f] for f in cur):
+                break
+            if time.time() > deadline:
+                raise common.Inconclusive("seeded data not readable 30 s after the restart")
+            time.sleep(0.5)
+        n0 = len(self.cases)
+        reads = [o for o in self.ops if o["kind"] == "read" and o["fam"] != "svc3"]
+        for u in self.users:
+            for o in reads:
+                if o["nons"]:
+                    self.run_case(u, o, None, "none", None)
+                    continue
+                for t in o["tags"]:
+                    sp, nsv = ("by-id", None) if o["byid"] else spellings(t)[0]
+                    self.run_case(u, o, t, sp, nsv)
+        for c in self.cases[n0:]:
+            c["phase"] = "after-restart"
 
     def check_seed(self):
         for t in TAGS:
@@ -827,6 +861,14 @@ def judge(out, shards):
     stats = {"requests_by_restricted_users": 0, "disallowed_cases": 0, "disallowed_refused": 0, "allowed_cases": 0, "allowed_worked": 0,
              "leak_cases": 0, "write_through_cases": 0, "not_refused_cases": 0}
     held = {}
+    before = {}
+    for c in cases:
+        if "unattributed" not in c and c.get("phase") != "after-restart":
+            bad = bool(c["leaks"]) or (not c["allowed"] and not c["refused"] and not c["list_all"])
+            k = (c["user"], c["op"], c["ns"], c["spelling"])
+            before[k] = before.get(k, False) or bad
+    stats["after_restart_cases"] = 0
+    stats["after_restart_sessions_still_valid"] = 0
     for c in cases:
         if "unattributed" in c:
             out.violation("unattributed-state-change/%s" % c["op"].split("/")[1], c)
@@ -834,6 +876,20 @@ def judge(out, shards):
         stats["requests_by_restricted_users"] += c["pages"]
         out.evaluations += c["pages"]
         sig_base = c["op"]
+        if c.get("phase") == "after-restart":
+            # same user, same token, same request as before the restart: only a verdict that CHANGED is reported here (an
+            # endpoint that leaks in both phases is one finding, reported by the first phase)
+            stats["after_restart_cases"] += 1
+            if c["allowed"] and c["worked"]:
+                stats["after_restart_sessions_still_valid"] += 1
+            bad = bool(c["leaks"]) or (not c["allowed"] and not c["refused"] and not c["list_all"])
+            if bad and not before.get((c["user"], c["op"], c["ns"], c["spelling"]), False):
+                w = witness(c)
+                w["phase"] = "same token after a restart of the node; the same request was refused / clean before the restart"
+                out.violation("after-restart/%s/%s" % (sig_base, c["leak_name"] if c["leaks"] else "not-refused"), w)
+            elif not bad and c["allowed"] and c["worked"]:
+                out.shape("after-restart|%s|%s" % (c["op"], c["shape"]))
+            continue
         viol = False
         if c["leaks"]:
             stats["leak_cases"] += 1
